@@ -296,6 +296,11 @@ def run_c08(pid, tier):
             ai = items_of(unhexs(a.get("statics", "-")))[1]; mi = items_of(unhexs(m.get("statics", "-")))[1]
             k = next((i for i in range(max(len(ai), len(mi))) if i >= len(ai) or i >= len(mi) or ai[i] != mi[i]), 0)
             disagree.append((h, "item text", (ai[k] if k < len(ai) else b"").decode("latin1"), (mi[k] if k < len(mi) else b"").decode("latin1")))
+    # the model as the theorems see it (vm_compute inside Coq) against the model as the correspondence runs it (extracted OCaml)
+    small = [r["model_line"] for h, r in zip(hist, rs) if all(op[0] in "FAD" for op in h) and sum(len(op[-1]) for op in h) <= 200 and len(impl_line(h)) < 1500]
+    nx, xbad = statics_crosscheck(rng.sample(small, min(len(small), 30 if tier == "quick" else 200)))
+    chk.notes["extraction_crosscheck"] = "%d histories evaluated by vm_compute inside Coq and by the extracted driver: %s" % (nx, "equal" if not xbad else xbad[0])
+    if xbad: disagree.append((hist[0], "EXTRACTION (Extract.v / ocaml/driver.ml vs vm_compute): " + xbad[0], "", ""))
     # oracle: compile what was generated and read content/name back
     B = 80
     for s in range(0, len(hist), B):
